@@ -50,7 +50,9 @@ GOAL_EXTRA_SCALES = ["1000000000000000000000000000003"]
 
 GOALS = [("MC_Ledger_goalA.tla", "MC_Ledger_goal_A.cfg", [_g(W1), _g(W1P)]), ("MC_Ledger_goalA.tla", "MC_Ledger_goal_A2.cfg", [_g(W1)]),
          ("MC_Ledger_goalB.tla", "MC_Ledger_goal_B.cfg", [_g(W3)]), ("MC_Ledger_goalB.tla", "MC_Ledger_goal_C.cfg", [_g(W3)]),
-         ("MC_Ledger_n.tla", "MC_Ledger_goal_N.cfg", [_g(W4)]), ("MC_Ledger_goalS.tla", "MC_Ledger_goal_S.cfg", [_g(W1)])]
+         ("MC_Ledger_n.tla", "MC_Ledger_goal_N.cfg", [_g(W4)]), ("MC_Ledger_goalS.tla", "MC_Ledger_goal_S.cfg", [_g(W1)]),
+         ("MC_Ledger_goalS2.tla", "MC_Ledger_goal_S2.cfg", [_g(W1)]), ("MC_Ledger_goalW.tla", "MC_Ledger_goal_W.cfg", [_g(W1)]),
+         ("MC_Ledger_goalD.tla", "MC_Ledger_goal_D.cfg", [_g(W3)])]
 
 ALL_GOALS = """dep_ok wd_ok wd_over_balance_within_total wd_within_balance_over_total del_first_into_pool del_skewed_rate del_self
 del_native del_again_after_empty del_top_up del_with_codelegator del_over_withdrawable und_partial und_full_exit_others_remain
@@ -59,7 +61,8 @@ assoc_with_position assoc_refused_with_position dissoc_with_position hold_releas
 eb_release_fully_slashed eb_release_native eb_requeue_held eb_release_after_requeue slash_partial slash_full slash_wipes_pool
 slash_hits_pending_record slash_record_to_zero slash_spares_older_record slash_multi_asset slash_pool_fully_unbonding_other_bonded
 slash_partial_pool_fully_unbonding_other_bonded slash_partial_hits_pending_record
-slash_caps_reduced_record slash_two_records slash_record_started_at_infraction_height slash_record_started_after_infraction_height
+del_again_after_slash_wipe und_full_exit_from_slashed_operator assoc_with_positions_in_two_assets dissoc_with_positions_in_two_assets
+slash_reduced_record_below_cap slash_caps_reduced_record slash_two_records slash_record_started_at_infraction_height slash_record_started_after_infraction_height
 slash_infraction_at_current_height slash_replay slash_factor_above_one slash_zero_value_operator nst_up
 nst_down_within_withdrawable nst_down_ends_inside_pending_records nst_down_reaches_shares nst_down_shares_two_operators
 nst_down_skips_zero_share_row msgdel_two_entries msgdel_second_entry_fails msgund_two_operators
